@@ -169,9 +169,35 @@ def run_c15(tier, seed, build):
                 why = f"{res['pops']} worklist pops for {n} members and {ad} adoptions"
             elif res["scanned"] > 2 * ad + n:
                 why = f"{res['scanned']} link entries scanned for {ad} adoptions"
+            elif res["link_eq"] + res["link_hash"] > 16 * (n + ad) + 64:
+                why = (f"{res['link_eq']} link comparisons and {res['link_hash']} link hashes to trace and tear down {n} members with {ad} adoptions "
+                       f"({(res['link_eq'] + res['link_hash']) / (n + ad):.1f} per member+adoption; linear behaviour needs 5-8)")
             ratios.append((res["pops"] + res["visits"] + res["scanned"]) / (n + ad))
         if why:
             bad.append((c, why))
+    # wall time, sequentially and with a very generous margin (a secondary signal; the
+    # deterministic counters above are the oracle): time per member must not grow by
+    # more than 12x between a ring of 1024 and the largest ring of the tier
+    nmax = max(c["n"] for c in data["cases"])
+    timing = {}
+    for shape in ("ring", "ringchord"):
+        per = {}
+        for n in (1024, nmax):
+            best = None
+            for _ in range(3):
+                rr = subprocess.run([exe, "case", shape, str(n), "0"], cwd=VERIF, stdout=subprocess.PIPE, text=True)
+                try:
+                    ns = json.loads(rr.stdout)["final_drop_ns"]
+                except Exception:
+                    ns = None
+                if ns is not None and (best is None or ns < best):
+                    best = ns
+            per[n] = best
+        if per[1024] and per[nmax]:
+            ratio = (per[nmax] / nmax) / (per[1024] / 1024)
+            timing[shape] = {"ns_per_member_at_1024": round(per[1024] / 1024, 1), f"ns_per_member_at_{nmax}": round(per[nmax] / nmax, 1), "ratio": round(ratio, 2)}
+            if ratio > 12:
+                bad.append(({"shape": shape, "n": nmax, "last": 0, "result": None}, f"collecting a {shape} of {nmax} members takes {ratio:.1f}x longer per member than a {shape} of 1024 (super-linear growth)"))
     status = 0
     lines = []
     for c, why in bad[:5]:
@@ -191,11 +217,13 @@ def run_c15(tier, seed, build):
         "coverage": {
             "evaluations": len(data["cases"]),
             "distinct_nontrivial": len(data["cases"]),
-            "rule": "finite grid, fully enumerated: shapes ring / ringself (every 3rd member also adopts itself through a clone) / ringchord (every member also adopts the member 3 ahead) for every n in 1..64 and every power of two up to the tier's maximum, clique for n up to 256, and for n <= 16 a ring whose members are all held outside, once per choice of the member released last; every case is a child process that builds the group and collects it on a thread with a 128 KiB stack; a case is non-trivial when it destroys all n members in one group teardown (all are). Oracle: completes, n destructors, exactly one trace for the orphaning drop, visits <= n, pops <= adoptions + n + 1, scanned <= 2*adoptions + n",
+            "rule": "finite grid, fully enumerated: shapes ring / ringself (every 3rd member also adopts itself through a clone) / ringchord (every member also adopts the member 3 ahead) for every n in 1..64 and every power of two up to the tier's maximum, clique for n up to 256, and for n <= 16 a ring whose members are all held outside, once per choice of the member released last; every case is a child process that builds the group and collects it on a thread with a 128 KiB stack; a case is non-trivial when it destroys all n members in one group teardown (all are). Oracle: completes, n destructors, exactly one trace for the orphaning drop, visits <= n, pops <= adoptions + n + 1, scanned <= 2*adoptions + n, link comparisons + link hashes (every table lookup of trace and teardown) <= 16*(n + adoptions) + 64",
             "samples": [c["result"] for c in data["cases"][:2]] + [c["result"] for c in big[-3:]],
             "exhaustive": True,
             "max_n": max(c["n"] for c in data["cases"]),
             "shapes": {k: len(v) for k, v in shapes.items()},
+            "sequential_timing_min_of_3": timing,
+            "link_ops_per_member_plus_adoption_max": round(max((c["result"]["link_eq"] + c["result"]["link_hash"]) / (c["n"] + c["result"]["adoptions"]) for c in data["cases"] if c["result"]), 2),
             "work_per_member_plus_adoption_min_max": [round(min(ratios), 3), round(max(ratios), 3)] if ratios else [],
             "final_drop_ns_per_member_at_largest_n": {c["shape"]: round(c["result"]["final_drop_ns"] / c["n"], 1) for c in big if c["n"] == max(x["n"] for x in big)},
         },
